@@ -228,10 +228,23 @@ def r4(ctx):
     init = ctx.fn(MOLITER, 'MoleculeIterator.__init__')
     for var in ('yield_invalid', 'yield_overflow'):
         st = any(isinstance(s, ast.Assign) and src(s) == f'self.{var} = {var}' for s in walk_no_nested(init))
-        ifs = [s for s in walk_no_nested(it) if isinstance(s, ast.If) and src(s.test) == f'self.{var}']
-        oky = len(ifs) == 1 and any(isinstance(x, (ast.Yield, ast.YieldFrom)) for b in ifs[0].body for x in walk_no_nested(b)) and \
-            not any(isinstance(x, (ast.Yield, ast.YieldFrom)) for b in ifs[0].orelse for x in walk_no_nested(b)) and \
-            any(isinstance(x, ast.AugAssign) and src(x.target) == 'self.deleted_fragments' for b in ifs[0].orelse for x in walk_no_nested(b))
+        # the block that decides about such a fragment: with the flag on every path through it yields a molecule, with the flag off none does
+        # and the fragment is counted as deleted (if/else, guard clause with `continue`, either polarity)
+        modi = ctx.ix.module(MOLITER)
+        ifs = [s for s in walk_no_nested(it) if isinstance(s, ast.If) and f'self.{var}' in src(s.test) and names_in(s.test) == {'self'}]
+        oky = len(ifs) == 1
+        if oky:
+            par = modi.parent[ifs[0]]
+            block = None
+            for fld in ('body', 'orelse', 'finalbody'):
+                if ifs[0] in (getattr(par, fld, None) or []):
+                    block = getattr(par, fld)
+            region = block[block.index(ifs[0]):] if block else [ifs[0]]
+            for flag in (True, False):
+                rs = [r for r in explore(region, mk_atoms({f'self.{var}': flag})) if r['kind'] in ('continue', 'fall')]
+                ys = {sum(1 for t, v, k in r['stores'] if t == '<yield>') for r in rs}
+                dl = {sum(1 for t, v, k in r['stores'] if t == 'self.deleted_fragments') for r in rs}
+                oky = oky and bool(rs) and (ys == {1} and dl == {0} if flag else ys == {0} and dl == {1})
         ctx.emit('C05-R4', st and oky, MOLITER, ifs[0] if ifs else it, f'iterator: fragments are yielded iff self.{var}, otherwise counted as deleted', key=f'iterator:{var}')
     # the argparse options are store_true flags (default: write rejects)
     tree = mod.tree
